@@ -39,8 +39,11 @@ def _writeTracebackMessage(logger, typ, exception, traceback):
 
     @param traceback: The traceback, a C{str}.
     """
-    msg = TRACEBACK_MESSAGE(reason=exception, traceback=traceback, exception=typ)
-    msg = msg.bind(**_error_extraction.get_fields_for_exception(logger, exception))
+    # Extracted fields must not replace the traceback's own fields (as in
+    # Action.finish); a replaced "exception" field can't even be serialized.
+    fields = dict(_error_extraction.get_fields_for_exception(logger, exception))
+    fields.update(reason=exception, traceback=traceback, exception=typ)
+    msg = TRACEBACK_MESSAGE(**fields)
     msg.write(logger)
 
 
